@@ -212,7 +212,20 @@ def one_history(ctx, rng, kind, with_objective=True, max_constraints=4):
         lineage |= before_names
         with warnings.catch_warnings(record=True) as wl:
             warnings.simplefilter("always")
-            ok, ret = ctx.call("add_constraint_%s_zero" % R, getattr(H, "add_constraint_%s_zero" % R), argP, _w=w, **kw)
+            if rng.random() < 0.25:
+                # the documented positional order: (P, lam, bounds, suppress_warnings) for ==, (P, lam, log_trick, bounds,
+                # suppress_warnings) for the other five
+                pos = [kw["lam"]] + ([] if R == "eq" else [kw.get("log_trick", True)]) + [kw.get("bounds")]
+                if "suppress_warnings" in kw and rng.random() < 0.5:
+                    pos.append(kw["suppress_warnings"])
+                    rest_ = {}
+                else:
+                    rest_ = {k_: v_ for k_, v_ in kw.items() if k_ == "suppress_warnings"}
+                ctx.cat("arguments-passed-positionally")
+                desc.append("positional")
+                ok, ret = ctx.call("add_constraint_%s_zero" % R, getattr(H, "add_constraint_%s_zero" % R), argP, *pos, _w=w, **rest_)
+            else:
+                ok, ret = ctx.call("add_constraint_%s_zero" % R, getattr(H, "add_constraint_%s_zero" % R), argP, _w=w, **kw)
         if not ok:
             return
         if ret is not H:
